@@ -43,4 +43,15 @@ def run(ck):
             ck.cov["impl_checks"] += s.get("checks", 0)
         elif rc == 0:
             ck.validate_trace("Trace_Convert", "Trace_Convert.cfg", cmd[-1], "convert/trace-%s-%s" % (sp["flavour"], sp["name"]), n_traces=1, n_events=s.get("events", 0))
-    ck.assume("the CUDA device-array conversion (host shim) is not exercised in this round: needs the CUDA runtime headers; see DESIGN.md section 6")
+    # (c) host array -> CUDA device array storage -> host, on a host shim of the CUDA runtime (reduced assurance)
+    import os, vf
+    inc = ["-I" + os.path.join(vf.HARNESS, "cuda_shim"), "-I" + os.path.join(vf.REPO, "lib/cuda")]
+    b = ck.build("h_cuda", "h_cuda.cpp", "asan", extra_flags=inc)
+    if not b:
+        ck.compile_violation("h_cuda/asan (cuda_device_array against the host shim)", ck.last_build_log)
+    else:
+        rc, out, err = ck.run([b, cases], timeout=900)
+        s = ck.harness_output("cuda-shim-replay", rc, out, err)
+        ck.cov["cuda_shim_cases"] = s.get("cases", 0)
+        ck.cov["impl_checks"] += s.get("checks", 0)
+    ck.assume("CUDA: cuda_device_array is compiled and executed against a host shim of the runtime (malloc/memcpy/free); nothing is claimed about real devices")
